@@ -269,9 +269,9 @@ func checkC18(tier string) {
 	} else {
 		harnessFail("cannot take the fixed header from samples/README.md")
 	}
-	n := 3000
+	n := 40000
 	if tier != "quick" {
-		n = 150000
+		n = 600000
 	}
 	type outcome struct {
 		sc *Scenario
